@@ -16,7 +16,7 @@ LOG=/tmp/seedverify/$NAME.log
 mkdir -p /tmp/seedverify; [ -s "$LOG.confirm" ] && cp "$LOG.confirm" "$LOG.confirm.keep"; : > "$LOG"
 say() { echo "$@" | tee -a "$LOG"; }
 cleanup() {
-  git -C /repo checkout -q -- . 2>/dev/null
+  [ "${SEED_VIA:-repo}" = worktree ] || git -C /repo checkout -q -- . 2>/dev/null
   git -C /repo worktree remove --force "$WT" 2>/dev/null
   rm -rf "$WT"; git -C /repo worktree prune
 }
@@ -62,12 +62,27 @@ if [ "${SEED_PHASE:-all}" = confirm ]; then
   say "CONFIRM $NAME: demo passes without: $([ $R0 = 0 ] && echo yes || echo NO), fails with: $F/3, suite green: $([ $RS = 0 ] && echo yes || echo NO)"
   exit 0
 fi
+if [ "${SEED_VIA:-repo}" = worktree ]; then
+  # Same check, same sources, but against a scratch worktree of /repo with the
+  # change applied and a private copy of /verif (harness/go.mod names the
+  # repository directory, so a copy per seed keeps concurrent runs apart). Used
+  # while a background run is reading /repo itself.
+  say "-- my check against the change (scratch worktree + private copy of /verif, removed afterwards)"
+  CR=/tmp/seedverify/$NAME-chkrepo; CV=/tmp/seedverify/$NAME-chkverif
+  git -C /repo worktree remove --force "$CR" 2>/dev/null; rm -rf "$CR" "$CV"
+  git -C /repo worktree add -q "$CR" HEAD || exit 3
+  git -C "$CR" apply "$OUT/patch.diff" || { say "VERDICT $NAME: patch does not apply"; git -C /repo worktree remove --force "$CR"; exit 3; }
+  mkdir -p "$CV"; rsync -a --exclude .git --exclude .work --exclude replays --exclude seeded "${SEED_VERIF_SRC:-/verif}/" "$CV/"
+  ( cd "$CV" && VERIF_DIR="$CV" VERIF_REPO="$CR" timeout ${SEED_TIMEOUT:-2400} bin/verifctl check "$ID" ) > "$LOG.check" 2>&1; RC=$?
+  git -C /repo worktree remove --force "$CR" 2>/dev/null; rm -rf "$CR" "$CV"; git -C /repo worktree prune
+else
 say "-- my check against the change (applied to /repo, reverted afterwards)"
 git -C /repo status --short | grep -q . && { say "VERDICT $NAME: /repo is not clean, refusing"; exit 3; }
 git -C /repo apply "$OUT/patch.diff" || { say "VERDICT $NAME: patch does not apply to /repo"; exit 3; }
 cd /verif
-bin/verifctl check "$ID" > "$LOG.check" 2>&1; RC=$?
+timeout ${SEED_TIMEOUT:-2400} bin/verifctl check "$ID" > "$LOG.check" 2>&1; RC=$?
 git -C /repo checkout -q -- .
+fi
 grep -E "^VIOLATION|MACHINERY|KNOWN-FINDING|^property" "$LOG.check" | cut -c1-260 | head -6 | tee -a "$LOG"
 say "   verifctl exit $RC (1 = violation reported, 0 = silent, 2 = machinery error)"
 
